@@ -86,6 +86,60 @@ fn run_child(argv: &[String], capture: bool) -> ChildOut {
     }
 }
 
+/// Run this binary again as a child under a watchdog: the child is killed when the in-flight file
+/// has not changed for `stall_s` seconds (every worker is stuck or waiting for a stuck one), or
+/// after `abs_s` seconds altogether. A killed child looks like a crash to the caller, which then
+/// looks for the single case that does not come back. This is what turns a search step that
+/// loops without ever reaching one of the driver's hooks into a reported violation instead of a
+/// check that never ends.
+fn run_child_watched(argv: &[String], inflight: Option<&str>, stall_s: u64, abs_s: Option<u64>) -> ChildOut {
+    use std::os::unix::process::ExitStatusExt;
+    let exe = std::env::current_exe().expect("current_exe");
+    let mut cmd = Command::new(exe);
+    cmd.args(argv).env("PVSIM_CHILD", "1");
+    let mut child = match cmd.spawn() {
+        Ok(c) => c,
+        Err(e) => return ChildOut { code: Some(2), how: format!("could not start child: {}", e), stdout: String::new() },
+    };
+    let started = std::time::Instant::now();
+    let mut last_change = std::time::Instant::now();
+    let mut last_seen: Vec<u8> = vec![];
+    loop {
+        match child.try_wait() {
+            Ok(Some(st)) => {
+                let how = match st.signal() {
+                    Some(sig) => format!("killed by signal {}", sig),
+                    None => format!("exit code {:?}", st.code()),
+                };
+                return ChildOut { code: st.code(), how, stdout: String::new() };
+            }
+            Ok(None) => {}
+            Err(e) => return ChildOut { code: Some(2), how: format!("wait failed: {}", e), stdout: String::new() },
+        }
+        std::thread::sleep(std::time::Duration::from_millis(250));
+        if let Some(p) = inflight {
+            if let Ok(bytes) = std::fs::read(p) {
+                if bytes != last_seen {
+                    last_seen = bytes;
+                    last_change = std::time::Instant::now();
+                }
+            }
+        }
+        let stalled = inflight.is_some() && last_change.elapsed().as_secs() > stall_s;
+        let too_long = abs_s.map(|s| started.elapsed().as_secs() > s).unwrap_or(false);
+        if stalled || too_long {
+            let _ = child.kill();
+            let _ = child.wait();
+            let how = if stalled {
+                format!("no case finished for {} s: a case does not return (hang)", stall_s)
+            } else {
+                format!("no result within {} s: the case does not return (hang)", abs_s.unwrap_or(0))
+            };
+            return ChildOut { code: None, how, stdout: String::new() };
+        }
+    }
+}
+
 fn is_crash(code: Option<i32>) -> bool {
     !matches!(code, Some(0) | Some(1) | Some(2) | Some(3))
 }
@@ -188,7 +242,7 @@ fn main() {
             println!("VERIF_SEED={} check={} tier={:?}", seed, check.id(), tier);
             let inflight = framework::inflight_path(&verif_dir, check.id());
             let _ = std::fs::remove_file(&inflight);
-            let out = run_child(&args[1..].to_vec(), false);
+            let out = run_child_watched(&args[1..].to_vec(), Some(&inflight), 300, None);
             if out.code == Some(3) {
                 sequence_search(check, &verif_dir, seed, tier, "a violation does not reproduce in isolation")
             } else if !is_crash(out.code) {
@@ -200,7 +254,7 @@ fn main() {
                 for idx in candidates {
                     let mut sub: Vec<String> = vec!["runcase".into(), check.id().into(), idx.to_string()];
                     sub.extend(common_flags(seed, tier));
-                    let o2 = run_child(&sub, false);
+                    let o2 = run_child_watched(&sub, None, 0, Some(180));
                     if is_crash(o2.code) {
                         let case = check.generate(seed, idx, tier);
                         let path = framework::write_crash_replay(check, &verif_dir, seed, idx, &case, &o2.how);
@@ -243,7 +297,7 @@ fn main() {
                     }
                 }
             } else {
-                let out = run_child(&args[1..].to_vec(), false);
+                let out = run_child_watched(&args[1..].to_vec(), None, 0, Some(300));
                 if is_crash(out.code) {
                     println!("VIOLATION property={} replay={}", check.id(), path);
                     println!("  class: crash ({})", out.how);
